@@ -1327,7 +1327,8 @@ fn history<D: Doc>(cx: &mut Cx, rng: &mut Rng, hid: u64) {
   cx.rep.inc("histories");
   // (fragment, general-purpose?) of the storage-backed methods created in this history, creation order
   let mut live: Vec<(String, bool)> = Vec::new();
-  let steps = 4 + rng.usize(12);
+  let max_extra = if rng.chance(1, 8) { 40 } else { 12 };
+  let steps = 4 + rng.usize(max_extra);
   let scopes = all_scopes();
   for step in 0..steps {
     let density = *rng.pick(&[0u64, 1, 1, 2, 3]);
@@ -1448,7 +1449,7 @@ fn main() {
   }
 
   // ---- seeded random histories
-  let n_hist_total: u64 = if args.thorough { 60_000 } else { 1_600 };
+  let n_hist_total: u64 = if args.thorough { 1_500_000 } else { 24_000 };
   let n_hist = (n_hist_total * scale / 1000 / args.nshards.max(1)).max(2);
   let mut rng = args.rng(9);
   for h in 0..n_hist {
